@@ -177,7 +177,7 @@ def run(pid, tier):
             continue
         o = sc[0].execute(rp["case"])
         regress += 1
-        same = [v for v in o.get("violations", ()) if v["clause"] == rp["clause"]]
+        same = [v for v in o.get("violations", ()) if v["clause"] == rp["clause"] and rp.get("site") in (None, v.get("site"))]
         if k["status"] == "fixed":
             if same:
                 violations_out.append((rp["clause"], rp.get("site"), k["replay"], "regression of fixed finding: " + k.get("what", "")))
@@ -248,7 +248,7 @@ def run(pid, tier):
                 sys.stderr.write("reducer failed:\n" + traceback.format_exc())
         rdir = os.path.join(vf.VERIF_DIR, "replays", pid)
         os.makedirs(rdir, exist_ok=True)
-        name = "%s__%s__%s.json" % (scname, clause.replace("/", "_"), str(site).replace("/", "_").replace(" ", "_"))
+        name = ("%s__%s__%s.json" % (scname, clause, site)).replace("/", "_").replace(" ", "_").replace("|", "-")
         path = os.path.join(rdir, name)
         json.dump({"property": pid, "subcheck": scname, "clause": clause, "site": site, "details": v.get("details"),
                    "case": case, "count_in_run": len(items), "seed": seed, "tier": tier},
